@@ -7,7 +7,7 @@ src = lit / var), index (INDEX on a variable / literal / range value, src = var 
 match (MATCH(x,A[,t]); with `pre` a criteria function or a MATCH in another letter case is evaluated first on the same
 array and text), im (INDEX(A,MATCH(x,A,0))), fn (direct call of one of the three functions, model comparison only);
 an index / match / im case with key `asep` is written with that separator (',' ';' or '\\') between the arguments of the
-call(s) instead of the comma"""
+call(s) instead of the comma; a text written in a formula (lit_value) is delimited by " unless it contains one, then by '"""
 import itertools
 
 from .. import common, fx
@@ -64,11 +64,18 @@ RULE = ('formulas evaluated by one shared hotxlfp.Parser (kinds choose, index, m
         'row and column 2, the 2x3 array 1..6 with blank row and column 3, the 3x3 array with row 2 and blank column, each '
         'as variable and as range, written with each of "," ";" "\\". Same oracle and same model request form as the comma cases '
         '(the model is sent the formula as written). '
+        'Quote-edge and # texts (133 cases, after the separator cases, so none of them takes another separator): 6 flat text arrays - '
+        '{5\', 6\', 7\'}, {\'80s, \'90s, \'00s}, {say "hi", bye, "quoted"}, {#FF0000, #00FF00, #0000FF}, {#1, #42, #N/A!, #n/a}, '
+        '{it\'s, \', \'\'a}: texts whose own first or last character is a quote character and texts that begin with # (colour codes, '
+        'ticket numbers, near-error-codes), 19 elements in all; for every element x at position i: MATCH(x,A,0), INDEX(A,MATCH(x,A,0)) and '
+        'INDEX(A,i), each with array and x as variables (src var) and written in the formula (src lit), and CHOOSE(i,v1..vn) with the '
+        'values written in the formula: the element itself, at its own position. lit_value writes a text between " " unless the text '
+        'contains a ", then between \' \' (asserted not to contain one: a text holding both quote characters is never written). '
         'Whole numbers beyond 2^53 (36 cases): ids = 2^53-9, 2^53-8, 2^53+1, 2^53+3, 9999999999999999, 12345678901234567 as a flat '
         'array; MATCH(x,ids,0) and INDEX(ids,MATCH(x,ids,0)) for every id x with array and x as variables (src var) and written '
         'in the formula (src lit); INDEX({ids},i) on the literal and CHOOSE(i,ids..) for every i in 1..6: the id itself must come '
         'back, not a neighbour that is the same double. '
-        'Totals about 22400 cases in quick (41700 at scale 5), 164300 in thorough. '
+        'Totals about 22600 cases in quick (41900 at scale 5), 164400 in thorough. '
         'Model comparison of every case: same error tag or value of identical type (floats within 4 ulp); model answers without opinion '
         'are skipped. When a proof or the correspondence broke and no case failed: the thorough family at scale 2 without the fn cases, '
         'oracle only, up to the first failure. A failing INDEX case is shrunk to a smaller array of the same fill that still fails. '
@@ -81,7 +88,10 @@ TRUSTED = ['Python list/str subscripting, ==, <, > on int/float/bool/str/list (m
            'on lower-cased text), Python <=, >=, max, min, == on numbers and on lower-case ASCII text for types 1 / -1',
            'one hotxlfp.Parser serves all formula cases: variables A and X (Wa, Wc for array values of CHOOSE) are overwritten per case, range values come from a table '
            'refilled per case through the callRangeValue listener; Parser.parse turns an exception into an error record; array '
-           'literals read back as the written values (-0.0, exponents and quotes are kept out of literals)',
+           'literals read back as the written values (-0.0 and exponents are kept out of literals; a text is written between the quote '
+           'character it does not contain - " by default - and a text holding both is not generated; that the other quote character, '
+           'also as first or last character, and a leading # are ordinary characters of a quoted literal is C05\'s subject and is '
+           'exercised here through the answers only)',
            'model comparison by fx.record_matches / value_matches: error records by tag, values of identical type, floats sent as exact '
            'fractions and compared within 4 ulp, model answers "(o ..)" (no opinion) never compared; exceptions of direct calls are '
            'mapped to a tag by error.from_message',
@@ -93,6 +103,10 @@ ASSUMPTIONS = ['a blank argument slot is the same as an omitted index',
                'a whole number beyond 2^53, written in the formula or handed over by the host as a Python int, is itself: MATCH '
                'type 0 finds it at its own position only (2^53+1 does not equal its neighbour that is the same double), and INDEX / '
                'CHOOSE / INDEX(MATCH) hand back that int',
+               'a text is the element it is whatever it looks like: one whose first or last character is a quote character (5\', \'80s, '
+               '"quoted") and one that begins with # (#FF0000, #42, #N/A!, #n/a - no error value, no wildcard) is found by MATCH type 0 '
+               'at its own position and handed back unchanged by INDEX / CHOOSE / INDEX(MATCH), written in the formula or handed over '
+               'by the host',
                'index 0 or an omitted index selects the whole row / column / array; a negative index or a position outside the array '
                'gives an error (any error value), never an element counted from the end or from another row',
                'the element handed back is the identical Python value (same type: 1 is neither 1.0 nor TRUE; lists item by item); a '
